@@ -60,6 +60,9 @@ def confirm(wt, patch, demo):
              "cargo test -p postcard-schema --offline --features uuid-v1_0,uuid_v1_0/serde,derive,use-std --test %s" % name,
              "cargo test -p postcard-schema --offline --features nalgebra-v0_33,derive,use-std --test %s" % name,
              "cargo test -p %s --test %s --offline" % (crate, name)]
+    # explicit command (feature configuration the demo needs), e.g. an alloc-only build:  MUT_DEMO_CMD='cargo test -p postcard-schema --no-default-features --features alloc,derive --offline --test {name}'
+    if os.environ.get("MUT_DEMO_CMD"):
+        cands = [os.environ["MUT_DEMO_CMD"].format(name=name)]
     chosen = None
     for c in cands:
         rc_with, out_with = sh(c + " 2>&1", cwd=wt)
